@@ -157,3 +157,80 @@ let () =
           let (l, s, _) = List.nth evs k in
           mismatch l s (Printf.sprintf "slice disp %s: event %d is not enabled in the model (or observed a value the model does not predict)" !tag k)));
     dbuf := [])
+
+(* ---------------- wake-up protocol (coq/SliceWake.v) ---------------- *)
+let kbuf : (int * string * string list) list ref = ref []
+let kconc0 = ref 1
+
+let actor_of = function "loop" -> M.ALoop | _ -> M.AOther
+
+let kev_of (a : string list) : M.wev option =
+  match a with
+  | ["kpend"; ac; up; k; n] -> Some (M.KPend (actor_of ac, b up, nat k, b n))
+  | ["kcur"; ac; up; n] -> Some (M.KCur (actor_of ac, b up, b n))
+  | ["kstatus"; v; n] -> Some (M.KStatus (nat v, b n))
+  | ["kconc"; c; n] -> Some (M.KConc (nat c, b n))
+  | ["knotify"] -> Some M.KNotify
+  | ["krecv"] -> Some M.KRecv
+  | ["kpark"] -> Some M.KPark
+  | ["kclose"] -> Some M.KClose
+  | ["kopen"] -> Some M.KOpen
+  | _ -> None
+
+let () =
+  register "WAKE" (fun _ _ a -> (match a with t :: c :: _ -> tag := t; kconc0 := int_of_string c | _ -> ()); kbuf := []);
+  register "k" (fun ln line a -> kbuf := (ln, line, a) :: !kbuf);
+  register "ENDWAKE" (fun ln line a ->
+    let evs = List.rev !kbuf in
+    incr checked;
+    let st = ref (M.kinit (nat_of_int !kconc0)) in
+    let bad = ref false in
+    List.iter (fun (l, s, args) ->
+      if not !bad then
+        match kev_of args with
+        | None -> bad := true; mismatch l s ("slice wake " ^ !tag ^ ": unknown record")
+        | Some e ->
+          let step e = M.kstep !st e in
+          (match step e with
+           | Some s' -> st := s'
+           | None ->
+             (* a notify nobody owed (Pause, Purge, redundant ones) is always allowed; the event loop
+                may already be parked when the record says it parks *)
+             (match e with
+              | M.KNotify -> (match step M.KNotifyExtra with Some s' -> st := s' | None -> bad := true)
+              | M.KPark when !st.M.kparked -> ()
+              | _ -> bad := true);
+             if !bad then mismatch l s (Printf.sprintf "slice wake %s: step is not enabled in the model (an enabling step without a notify, a park with the guard continuously true, ...)" !tag))) evs;
+    (match a with
+     | ["1"] when not !bad ->
+       if int_of_nat !st.M.kowed <> 0 then mismatch ln line (Printf.sprintf "slice wake %s: at rest %d notifications are still owed" !tag (int_of_nat !st.M.kowed))
+     | _ -> ());
+    kbuf := [])
+
+(* ---------------- per-job response (coq/SliceResp.v) ---------------- *)
+let rbuf : (int * string * string list) list ref = ref []
+
+let () =
+  register "RESP" (fun _ _ a -> (match a with t :: _ -> tag := t | _ -> ()); rbuf := []);
+  register "r" (fun ln line a -> rbuf := (ln, line, a) :: !rbuf);
+  register "ENDRESP" (fun _ _ _ ->
+    let evs = List.rev !rbuf in
+    incr checked;
+    let st = ref M.rinit in
+    let bad = ref false in
+    List.iter (fun (l, s, args) ->
+      if not !bad then begin
+        let e = match args with
+          | ["rsend"; v] -> Some (M.RSend (nat v))
+          | ["rclose"] -> Some M.RClose
+          | ["rrecv"; "1"; v] -> Some (M.RRecv (true, nat v))
+          | ["rrecv"; "0"; _] -> Some (M.RRecv (false, !st.M.rres))   (* the value read back is not a channel event *)
+          | _ -> None in
+        match e with
+        | None -> bad := true; mismatch l s ("slice resp " ^ !tag ^ ": unknown record")
+        | Some e ->
+          (match M.rrun_idx !st [e] M.O with
+           | M.Inr s' -> st := s'
+           | M.Inl _ -> bad := true; mismatch l s (Printf.sprintf "slice resp %s: channel operation not enabled in the model (second send, send after close, double close, receive of a value that was not sent)" !tag))
+      end) evs;
+    rbuf := [])
